@@ -34,7 +34,9 @@ macro "lawful_step" : tactic => `(tactic| first
 macro "lawful" : tactic => `(tactic| repeat' lawful_step)
 
 
-theorem ptE_lawful (P : Params) : (ptE P).Lawful := by unfold ptE; lawful
+theorem ptKidsC_lawful (P : Params) : (ptKidsC P).Lawful := by unfold ptKidsC; lawful
+theorem ptE_lawful (P : Params) : (ptE P).Lawful := by have h := ptKidsC_lawful P; unfold ptE; lawful
+theorem pt3E_lawful (P : Params) : (pt3E P).Lawful := by have h := ptKidsC_lawful P; unfold pt3E; lawful
 theorem refE_lawful : refE.Lawful := by unfold refE; lawful
 
 theorem centerC_lawful (P : Params) (dyn : Bool) : (centerC P dyn).Lawful := by
@@ -199,7 +201,7 @@ theorem phantomObsE_lawful (cfg : Cfg) : (phantomObsE cfg).Lawful := by
 /-! ## lanelets -/
 
 theorem boundE_lawful (P : Params) : (boundE P).Lawful := by
-  have h := ptE_lawful P
+  have h := pt3E_lawful P
   unfold boundE; lawful
 
 theorem adjE_lawful : adjE.Lawful := by
